@@ -8,7 +8,8 @@ Local Open Scope Z_scope.
 Section Alloc.
   Variable c : cfg.
   Variable t0 : value -> option Z.     (* types in the input *)
-  Variable l : list sop.               (* the whole block (for `forced`) *)
+  Variable FR : value -> Z -> Prop.    (* "the input forces value v into register r" (ProofsSpec.forced, or its loop version) *)
+  Hypothesis FR_pre : forall v r, t0 v = Some r -> FR v r.
 
   (* registers the input pre-assigns *)
   Definition Pset (r : Z) : Prop := exists w, t0 w = Some r.
@@ -22,13 +23,11 @@ Section Alloc.
     so_neg_ty : forall v r, ty a v = Some r -> r < 0 ->
         - r - 1 < next_inf (stk a) /\ (allow_inf (stk a) = true \/ Pset r);
     so_next : 0 <= next_inf (stk a);
-    so_res_lt : forall k, is_reserved k (stk a) = true -> k < 0 /\ - k - 1 < next_inf (stk a);
-    so_excl : forall r, Pset r -> (0 <= r -> ~ In r (allocatable (stk a)))
-                                 /\ (r < 0 -> is_reserved r (stk a) = true);
+    so_res_lt : forall k, is_reserved k (stk a) = true -> k < 0 -> - k - 1 < next_inf (stk a);
+    so_excl : forall r, Pset r -> is_reserved r (stk a) = true \/ (0 <= r /\ ~ In r (allocatable (stk a)));
     so_zero : zero_rule c = true -> ~ In 0 (allocatable (stk a)) /\ ~ Pset 0;
     so_mono : forall v r, t0 v = Some r -> ty a v = Some r;
     so_zero_ty : forall v, zero_rule c = true -> ty a v = Some 0 -> In v (zconsts c);
-    so_forced : forall v r, ty a v = Some r -> Pset r -> forced t0 l v r;
     so_prov : forall v r, ty a v = Some r -> t0 v = None ->
         In r (allocatable (stk a)) \/ (r < 0 /\ allow_inf (stk a) = true)
         \/ (zero_rule c = true /\ r = 0 /\ In v (zconsts c)) \/ Pset r }.
@@ -42,8 +41,12 @@ Section Alloc.
       Pset r \/ (zero_rule c = true /\ r = 0) \/ E v1 v2.
   Definition frame (M : value -> Prop) (a : astate) : Prop := forall v, ~ M v -> ty a v = t0 v.
 
+  (* G5: a protected value holding a pre-assigned register is forced into it by the input *)
+  Definition G5 (L : value -> Prop) (a : astate) : Prop :=
+    forall v r, L v -> ty a v = Some r -> Pset r -> FR v r.
+
   Definition Inv (L : value -> Prop) (E : value -> value -> Prop) (M : value -> Prop) (a : astate) : Prop :=
-    sok a /\ G1 L a /\ G2 L E a /\ frame M a.
+    sok a /\ G1 L a /\ G2 L E a /\ frame M a /\ G5 L a.
 
   Definition addv (L : value -> Prop) (v : value) : value -> Prop := fun w => L w \/ w = v.
   Definition delv (L : value -> Prop) (v : value) : value -> Prop := fun w => L w /\ w <> v.
@@ -52,18 +55,18 @@ Section Alloc.
   Lemma Inv_weaken : forall (L L' : value -> Prop) E (M M' : value -> Prop) a,
     Inv L E M a -> (forall v, L' v -> L v) -> (forall v, M v -> M' v) -> Inv L' E M' a.
   Proof.
-    intros L L' E M M' a [Hs [H1 [H2 Hf]]] HL HM. split; [exact Hs|]. split; [|split].
+    intros L L' E M M' a [Hs [H1 [H2 [Hf H5]]]] HL HM. split; [exact Hs|]. split; [|split; [|split]].
     - intros v r Hv. apply H1. apply HL. exact Hv.
     - intros v1 v2 r Hv1 Hv2. apply H2; apply HL; assumption.
     - intros v Hv. apply Hf. intro Hc. apply Hv. apply HM. exact Hc.
+    - intros v r Hv. apply H5. apply HL. exact Hv.
   Qed.
 
   Lemma pset_unavail : forall a r, sok a -> Pset r -> ~ In r (available (stk a)).
   Proof.
-    intros a r Hs Hp Hin. destruct (so_excl a Hs r Hp) as [Hge Hlt].
-    destruct (Z_lt_le_dec r 0) as [Hn|Hn].
-    - rewrite (so_avail_nres a Hs r Hin) in Hlt. specialize (Hlt Hn). discriminate.
-    - destruct (so_avail a Hs r Hin) as [H|H]; [exact (Hge Hn H) | lia].
+    intros a r Hs Hp Hin. destruct (so_excl a Hs r Hp) as [Hres|[Hge Hna]].
+    - rewrite (so_avail_nres a Hs r Hin) in Hres. discriminate.
+    - destruct (so_avail a Hs r Hin) as [H|H]; [exact (Hna H) | lia].
   Qed.
 
   Lemma zero_unavail : forall a, sok a -> zero_rule c = true -> ~ In 0 (available (stk a)).
@@ -87,9 +90,9 @@ Section Alloc.
   Lemma add_untouched : forall L E M a v r,
     Inv L E M a -> ~ M v -> ty a v = Some r -> Inv (addv L v) E (addv M v) a.
   Proof.
-    intros L E M a v r [Hs [H1 [H2 Hf]]] HnM Hty.
+    intros L E M a v r [Hs [H1 [H2 [Hf H5]]]] HnM Hty.
     assert (Hp : Pset r). { exists v. rewrite <- (Hf v HnM). exact Hty. }
-    split; [exact Hs|]. split; [|split].
+    split; [exact Hs|]. split; [|split; [|split]].
     - intros w q [Hw|Hw] Hq; [exact (H1 w q Hw Hq)|]. subst w. rewrite Hty in Hq. inversion Hq; subst.
       apply pset_unavail; assumption.
     - intros v1 v2 q [Hv1|Hv1] [Hv2|Hv2] Hne Hq1 Hq2.
@@ -98,6 +101,8 @@ Section Alloc.
       + subst v1. rewrite Hty in Hq1. inversion Hq1; subst. left. exact Hp.
       + subst. contradiction.
     - intros w Hw. apply Hf. intro Hc. apply Hw. left. exact Hc.
+    - intros w q [Hw|Hw] Hq HP; [exact (H5 w q Hw Hq HP)|]. subst w. rewrite Hty in Hq. inversion Hq; subst.
+      apply FR_pre. rewrite <- (Hf v HnM). exact Hty.
   Qed.
 
   (* ---- RegisterStack.pop ---- *)
@@ -110,7 +115,7 @@ Section Alloc.
     /\ (In r (allocatable s) \/ r < 0)
     /\ ~ Pset r /\ (zero_rule c = true -> r <> 0).
   Proof.
-    intros L E M a r s [Hs [H1 [H2 Hf]]] Hpop.
+    intros L E M a r s [Hs [H1 [H2 [Hf H5]]]] Hpop.
     destruct (pop_cases_g (stk a) r s Hpop) as [Fal [Fres [Fallow [Hnres Hc]]]].
     assert (Fisres : forall k, is_reserved k s = is_reserved k (stk a)).
     { intros k. unfold is_reserved. rewrite Fres. reflexivity. }
@@ -123,7 +128,7 @@ Section Alloc.
       assert (Hsub : forall q, In q (available s) -> In q (available (stk a))).
       { intros q Hq. rewrite Hav. apply in_or_app. left. exact Hq. }
       split; [|split; [exact Hnr | split; [|split; [|split; [|split]]]]].
-      + split; [|split; [|split]].
+      + split; [|split; [|split; [|split]]]; [| | | |exact H5].
         * constructor; simpl.
           -- apply NoDup_remove_1 in Hnd. rewrite app_nil_r in Hnd. exact Hnd.
           -- intros q Hq. rewrite Fal. apply (so_avail a Hs). apply Hsub. exact Hq.
@@ -136,7 +141,6 @@ Section Alloc.
           -- intros Hz. rewrite Fal. exact (so_zero a Hs Hz).
           -- exact (so_mono a Hs).
           -- exact (so_zero_ty a Hs).
-          -- exact (so_forced a Hs).
           -- intros v q Hq Ht. rewrite Fal, Fallow. exact (so_prov a Hs v q Hq Ht).
         * intros v q Hv Hq Hc. simpl in *. apply (H1 v q Hv Hq). apply Hsub. exact Hc.
         * exact H2.
@@ -149,7 +153,7 @@ Section Alloc.
     - (* a fresh infinite register *)
       pose proof (so_next a Hs) as Hnext.
       split; [|split; [rewrite Hav'; simpl; tauto | split; [|split; [|split; [|split]]]]].
-      + split; [|split; [|split]].
+      + split; [|split; [|split; [|split]]]; [| | | |exact H5].
         * constructor; simpl.
           -- rewrite Hav'. constructor.
           -- intros q Hq. rewrite Hav' in Hq. destruct Hq.
@@ -159,12 +163,11 @@ Section Alloc.
              destruct (so_neg_ty a Hs v q Hq Hneg) as [Hlt Hal]. split; [lia | exact Hal].
           -- rewrite Hn. lia.
           -- intros k Hk. rewrite Fisres in Hk. rewrite Hn.
-             destruct (so_res_lt a Hs k Hk) as [K1 K2]. split; [exact K1 | lia].
+             intros Kn. pose proof (so_res_lt a Hs k Hk Kn). lia.
           -- intros q Hq. rewrite Fal, Fisres. exact (so_excl a Hs q Hq).
           -- intros Hz. rewrite Fal. exact (so_zero a Hs Hz).
           -- exact (so_mono a Hs).
           -- exact (so_zero_ty a Hs).
-          -- exact (so_forced a Hs).
           -- intros v q Hq Ht. rewrite Fal, Fallow. exact (so_prov a Hs v q Hq Ht).
         * intros v q Hv Hq Hc. simpl in Hc. rewrite Hav' in Hc. destruct Hc.
         * exact H2.
@@ -172,9 +175,9 @@ Section Alloc.
       + intros w Hw Hc. destruct (so_neg_ty a Hs w r Hc) as [Hlt _]; lia.
       + intros _. rewrite Hn, Fallow. split; [lia | exact Hallow].
       + right. lia.
-      + intros HP. destruct (so_excl a Hs r HP) as [_ Hlt].
-        assert (Hrneg : r < 0) by lia.
-        destruct (so_res_lt a Hs r (Hlt Hrneg)) as [_ K]. lia.
+      + intros HP. assert (Hrneg : r < 0) by lia.
+        destruct (so_excl a Hs r HP) as [Hres|[Hge _]]; [|lia].
+        pose proof (so_res_lt a Hs r Hres Hrneg). lia.
       + intros _. lia.
   Qed.
 
@@ -187,15 +190,15 @@ Section Alloc.
         Pset r \/ (zero_rule c = true /\ r = 0) \/ (E v w /\ E w v)) ->
     (r < 0 -> - r - 1 < next_inf (stk a) /\ (allow_inf (stk a) = true \/ Pset r)) ->
     (zero_rule c = true -> r = 0 -> In v (zconsts c)) ->
-    (Pset r -> forced t0 l v r) ->
+    (Pset r -> FR v r) ->
     (In r (allocatable (stk a)) \/ (r < 0 /\ allow_inf (stk a) = true)
        \/ (zero_rule c = true /\ r = 0 /\ In v (zconsts c)) \/ Pset r) ->
     Inv (addv L v) E (addv M v) (set_ty v r a) /\ mono a (set_ty v r a).
   Proof.
-    intros L E M a v r [Hs [H1 [H2 Hf]]] Hnone Hna Hc3 Hc4 Hc5 Hc6 Hc7.
+    intros L E M a v r [Hs [H1 [H2 [Hf H5]]]] Hnone Hna Hc3 Hc4 Hc5 Hc6 Hc7.
     pose proof (none_t0 a v Hs Hnone) as Ht0.
     split.
-    - split; [|split; [|split]].
+    - split; [|split; [|split; [|split]]].
       + constructor; simpl.
         * exact (so_nodup a Hs).
         * exact (so_avail a Hs).
@@ -214,9 +217,6 @@ Section Alloc.
         * intros w Hz. destruct (Nat.eqb w v) eqn:Ew.
           -- apply Nat.eqb_eq in Ew. subst w. intros Hq. inversion Hq; subst. apply Hc5; [exact Hz | reflexivity].
           -- exact (so_zero_ty a Hs w Hz).
-        * intros w q. destruct (Nat.eqb w v) eqn:Ew.
-          -- apply Nat.eqb_eq in Ew. subst w. intros Hq. inversion Hq; subst. exact Hc6.
-          -- exact (so_forced a Hs w q).
         * intros w q. destruct (Nat.eqb w v) eqn:Ew.
           -- apply Nat.eqb_eq in Ew. subst w. intros Hq _. inversion Hq; subst. exact Hc7.
           -- exact (so_prov a Hs w q).
@@ -241,6 +241,10 @@ Section Alloc.
           exact (H2 v1 v2 q Hv1 Hv2 Hne Hq1 Hq2).
       + intros w Hw. assert (Hwv : w <> v). { intro Hc. apply Hw. right. exact Hc. }
         rewrite (set_ty_other v r a w Hwv). apply Hf. intro Hc. apply Hw. left. exact Hc.
+      + intros w q Hw Hq HP. destruct (Nat.eq_dec w v) as [Ew|Ew].
+        * subst w. rewrite set_ty_same in Hq. inversion Hq; subst q. exact (Hc6 HP).
+        * rewrite (set_ty_other v r a w Ew) in Hq. destruct Hw as [Hw|Hw]; [|contradiction].
+          exact (H5 w q Hw Hq HP).
     - intros w q Hq. destruct (Nat.eq_dec w v) as [Ew|Ew].
       + subst w. rewrite Hnone in Hq. discriminate.
       + rewrite (set_ty_other v r a w Ew). exact Hq.
@@ -251,7 +255,7 @@ Section Alloc.
     Inv L E M a -> L v -> ty a v = Some r -> (forall w, ~ E v w /\ ~ E w v) ->
     Inv (delv L v) E M (free_value v a) /\ ty (free_value v a) = ty a.
   Proof.
-    intros L E M a v r [Hs [H1 [H2 Hf]]] HLv Hty HE.
+    intros L E M a v r [Hs [H1 [H2 [Hf H5]]]] HLv Hty HE.
     unfold free_value. rewrite Hty.
     pose proof (push_fields r (stk a)) as [Fal [Fn [Fr Fi]]].
     assert (Fisres : forall k, is_reserved k (push r (stk a)) = is_reserved k (stk a)).
@@ -259,7 +263,7 @@ Section Alloc.
     split; [|reflexivity].
     destruct (push_cases_g r (stk a)) as [[Hp _]|[Hp [Hnres Hor]]].
     - (* ignored *)
-      split; [|split; [|split]].
+      split; [|split; [|split; [|split]]]; [| | | |intros w q [Hw _]; exact (H5 w q Hw)].
       + constructor; simpl.
         * rewrite Hp. exact (so_nodup a Hs).
         * rewrite Hp, Fal. exact (so_avail a Hs).
@@ -272,19 +276,18 @@ Section Alloc.
         * rewrite Fal. exact (so_zero a Hs).
         * exact (so_mono a Hs).
         * exact (so_zero_ty a Hs).
-        * exact (so_forced a Hs).
         * rewrite Fal, Fi. exact (so_prov a Hs).
       + intros w q [Hw _] Hq. simpl in *. rewrite Hp. exact (H1 w q Hw Hq).
       + intros v1 v2 q [Hv1 _] [Hv2 _]. exact (H2 v1 v2 q Hv1 Hv2).
       + exact Hf.
     - (* pushed: r is not reserved and allocatable or infinite, hence neither pre-assigned nor zero *)
       assert (HnP : ~ Pset r).
-      { intro HP. destruct (so_excl a Hs r HP) as [Hge Hlt]. destruct (Z_lt_le_dec r 0) as [Hn|Hn].
-        - rewrite Hnres in Hlt. specialize (Hlt Hn). discriminate.
-        - destruct Hor as [H|H]; [exact (Hge Hn H) | lia]. }
+      { intro HP. destruct (so_excl a Hs r HP) as [Hres|[Hge Hna]].
+        - rewrite Hnres in Hres. discriminate.
+        - destruct Hor as [H|H]; [exact (Hna H) | lia]. }
       assert (Hnz : ~ (zero_rule c = true /\ r = 0)).
       { intros [Hz Hr]. subst r. destruct (so_zero a Hs Hz) as [Hna _]. destruct Hor as [H|H]; [exact (Hna H) | lia]. }
-      split; [|split; [|split]].
+      split; [|split; [|split; [|split]]]; [| | | |intros w q [Hw _]; exact (H5 w q Hw)].
       + constructor; simpl.
         * rewrite Hp. apply NoDup_snoc.
           -- apply NoDup_remove_first. exact (so_nodup a Hs).
@@ -306,7 +309,6 @@ Section Alloc.
         * rewrite Fal. exact (so_zero a Hs).
         * exact (so_mono a Hs).
         * exact (so_zero_ty a Hs).
-        * exact (so_forced a Hs).
         * rewrite Fal, Fi. exact (so_prov a Hs).
       + intros w q [Hw Hwv] Hq Hin. simpl in *. rewrite Hp in Hin. apply in_app_or in Hin.
         destruct Hin as [Hin|Hin].
@@ -415,7 +417,7 @@ Section Alloc.
     (forall w, E y w -> w = x) -> (forall w, E w y -> w = x) ->
     ~ M x -> (L y \/ ~ M y) ->
     ~ In y (zconsts c) ->
-    tied l x y ->
+    (forall r, (FR x r -> FR y r) /\ (FR y r -> FR x r)) ->
     allocate_values_same_reg [x; y] a = Ok a' ->
     Inv (addv (addv L x) y) E (addv (addv M x) y) a' /\ mono a a'
     /\ (exists r, ty a' x = Some r /\ ty a' y = Some r)
@@ -456,15 +458,16 @@ Section Alloc.
           -- intros w Hwx Hwy. rewrite set_ty_other by exact Hwy. rewrite set_ty_other by exact Hwx. reflexivity.
     - (* operand pre-assigned X (untouched so far), result takes X *)
       pose proof HI as HIc. destruct HIc as [Hs HI'].
-      assert (HPX : Pset X). { exists x. destruct HI' as [_ [_ Hf]]. rewrite <- (Hf x HMx). exact Hx. }
+      assert (Hfr : frame M a) by (destruct HI' as [_ [_ [Hf _]]]; exact Hf).
+      assert (HPX : Pset X). { exists x. rewrite <- (Hfr x HMx). exact Hx. }
       pose proof (add_untouched L E M a x X HI HMx Hx) as HI1.
       destruct (set_ty_inv (addv L x) E (addv M x) a y X HI1 Hy) as [HI2 Hm2].
       + apply pset_unavail; assumption.
       + intros w _ _ _. left. exact HPX.
-      + intros Hneg. destruct (so_excl a Hs X HPX) as [_ Hlt].
-        destruct (so_res_lt a Hs X (Hlt Hneg)) as [_ K]. split; [exact K | right; exact HPX].
+      + intros Hneg. destruct (so_excl a Hs X HPX) as [Hres|[Hge _]]; [|lia].
+        split; [exact (so_res_lt a Hs X Hres Hneg) | right; exact HPX].
       + intros Hz HX0. subst X. destruct (so_zero a Hs Hz) as [_ Hn]. contradiction.
-      + intros _. apply (F_res t0 l x y X Htied). apply (so_forced a Hs x X Hx HPX).
+      + intros _. apply (proj1 (Htied X)). apply FR_pre. rewrite <- (Hfr x HMx). exact Hx.
       + right. right. right. exact HPX.
       + split; [exact HI2|]. split; [exact Hm2|]. split.
         * exists X. split; [|apply set_ty_same]. rewrite set_ty_other by exact Hne. exact Hx.
@@ -476,7 +479,7 @@ Section Alloc.
         - eapply Inv_weaken; [exact HI | | intros v Hv; left; exact Hv].
           intros v [Hv|Hv]; [exact Hv | subst v; exact HLy].
         - exact (add_untouched L E M a y R HI HMy Hy). }
-      pose proof HI1 as HI1c. destruct HI1c as [_ [H1' [H2' Hf']]].
+      pose proof HI1 as HI1c. destruct HI1c as [_ [H1' [H2' [Hf' H5']]]].
       assert (HLy' : addv L y y) by (right; reflexivity).
       destruct (set_ty_inv (addv L y) E (addv M y) a x R HI1 Hx) as [HI2 Hm2].
       + exact (H1' y R HLy' Hy).
@@ -488,7 +491,7 @@ Section Alloc.
           -- exfalso. apply Hwx. apply HEy. exact H.
       + intros Hneg. exact (so_neg_ty a Hs y R Hy Hneg).
       + intros Hz HR. subst R. exfalso. apply Hyz. exact (so_zero_ty a Hs y Hz Hy).
-      + intros HP. apply (F_opnd t0 l x y R Htied). exact (so_forced a Hs y R Hy HP).
+      + intros HP. apply (proj2 (Htied R)). exact (H5' y R HLy' Hy HP).
       + destruct (t0 y) as [R'|] eqn:Et0y.
         * right. right. right. exists y. rewrite (so_mono a Hs y R' Et0y) in Hy. inversion Hy; subst. exact Et0y.
         * destruct (so_prov a Hs y R Hy Et0y) as [H|[H|[[_ [_ H]]|H]]].
